@@ -71,7 +71,7 @@ impl<T: El> Interp<T> {
       "extend" => {
         argc(3)?;
         let it = It::parse(t[2])?;
-        self.room(it.items.len())?;
+        self.room(it.items.iter().flatten().count())?;
         let si = ScriptIter::<T>::new(it);
         done(scoped(|| v.extend(si)))
       }
